@@ -367,6 +367,7 @@ def run(chk):
     p_status_dump(chk)
     p_create_zip(chk)
     p_make_zip(chk)
+    p_download(chk)
     p_render_block(chk)
     bounded(chk)
     chk.assumptions += [
@@ -374,5 +375,99 @@ def run(chk):
         "POSIX rename/replace is atomic within one file system; a process kill loses user-space buffers only (no power loss: fsync is not required by the statement)",
         "writers (ZipCreator._write_zip, zip_dir, the render writer) write only to the path they are given (callee contract)",
         "make_nuwiki writes only below the fresh temp directory it is given",
-        "network/transport.download_with_retries and the render() function body are covered by static protocol obligations / not by symbolic execution (render) and not covered (download) - see DESIGN",
+        "the render() function body is covered by static protocol obligations, not by symbolic execution",
+        "download: the caller passes temp_path = path + a non-empty suffix without '/' (fetch.py: path + one character); httpx client/response contracts as modelled",
     ]
+
+
+# ----------------------------------------------------------------------------- download: stream to temp path, then rename
+def p_download(chk):
+    ex = base_explorer()
+    dl = ex.function(TRANSPORT, "download_with_retries")
+    st = ex.function(TRANSPORT, "stream_download_to_temp")
+    ex.inline |= {st.ident, TRANSPORT + ":should_retry_download", TRANSPORT + ":retry_download"}
+    HTTP_ERR = ExcClass("HTTPStatusError", ["HTTPStatusError", "Exception", "BaseException", "object"])
+    ex.models["httpx.RequestError"] = ExcClass("RequestError", ["RequestError", "Exception", "BaseException", "object"])
+
+    class Chunks(PObj):
+        def __init__(self):
+            super().__init__("chunks", {})
+
+            def mk(I):
+                state = {"V": None}
+                state.update(havoc=lambda I2: None, has_next=lambda I2: I2.fresh("more_chunks", z3.BoolSort()),
+                             take=lambda I2: SStr(I2.fresh("chunk", z3.StringSort())), at_exit=lambda I2: None)
+                return state
+            self.iter_state = mk
+
+    def client_stream(I, client, method, url):
+        resp = PObj("response", {})
+
+        def enter(I2):
+            if I2.decide(I2.fresh("connect_fails", z3.BoolSort())):
+                raise_exc(I2, ex.models["httpx.RequestError"])
+            return resp
+        return CtxMgr(enter, lambda I2, exc: False)
+
+    def raise_exc(I, cls, **fields):
+        from pyvc.interp import SymRaise
+        e = ExcVal(cls, [])
+        e.fields = fields
+        raise SymRaise(e)
+
+    def raise_for_status(I, resp):
+        if I.decide(I.fresh("http_error", z3.BoolSort())):
+            raise_exc(I, HTTP_ERR, response=PObj("response", {"status_code": I.fresh_int("status")}))
+    ex.methods[("client", "stream")] = Model("httpx client.stream (context manager)", client_stream)
+    ex.methods[("response", "raise_for_status")] = Model("response.raise_for_status", raise_for_status)
+    ex.methods[("response", "iter_bytes")] = Model("response.iter_bytes", lambda I, r, **k: Chunks())
+    # loops: the chunk loop and the retry loop
+    ex.loopspecs[(TRANSPORT + ":stream_download_to_temp", 0)] = LoopSpec(
+        lambda I, v, it: [("size_read_is_an_int", True)], None, lambda I, v, it: None)
+
+    def retry_inv(I, v, it):
+        rs = v["retry_state"]
+        tr = fsmodel.trace(I)
+        open_now = [e for e in tr if e[0] == "open_w"]
+        closed = [e for e in tr if e[0] == "close"]
+        return [("retry_state_is_a_record", isinstance(rs, PObj) and "retry_count" in rs.fields),
+                ("retry_count_non_negative", I._int_term(rs.fields["retry_count"]) >= 0),
+                ("no_file_open_between_attempts", len(open_now) == len(closed)),
+                ("not_yet_published", not any(e[0] == "rename" for e in tr))]
+
+    def retry_havoc(I, v, it):
+        rs = v.get("retry_state") or I.ghost["loop_old_vars"]["retry_state"]
+        v["retry_state"] = PObj(rs.cls, {"retry_count": I.fresh_int("retry_count"), "delay": I.fresh_int("delay")})
+        # earlier attempts: the temp file may have been written (and closed); nothing else happened
+        tr = fsmodel.trace(I)
+        del tr[:]
+        tr.append(("contract_write", v["temp_path"], "earlier attempts"))
+    ex.loopspecs[(TRANSPORT + ":download_with_retries", 0)] = LoopSpec(
+        retry_inv, lambda I, v, it: z3.If(I._int_term(v["retry_policy"].fields["max_retries"]) - I._int_term(v["retry_state"].fields["retry_count"]) >= 0,
+                                          I._int_term(v["retry_policy"].fields["max_retries"]) - I._int_term(v["retry_state"].fields["retry_count"]) + 1, z3.IntVal(0)),
+        retry_havoc, extra_havoc=("retry_state",))
+
+    def harness(I):
+        I.ghost["fs_faults"] = True
+        path = I.sym_str("path")
+        I.assume(z3.Length(path.z) > 0)
+        suffix = I.sym_str("temp_suffix")
+        # the caller's choice of temp_path (fetch.py: path + a one-character suffix)
+        I.assume(z3.Length(suffix.z) > 0)
+        I.assume(z3.Not(z3.Contains(suffix.z, z3.StringVal("/"))))
+        temp_path = SStr(z3.Concat(path.z, suffix.z))
+        policy = PObj("policy", {"max_retries": I.sym_int("max_retries"), "initial_delay": I.sym_int("initial_delay"),
+                                 "backoff_factor": I.sym_int("backoff")})
+        I.assume(policy.fields["max_retries"].z >= 0)
+        out = ex.run_function(I, dl, [], {"client": PObj("client", {}), "url": I.sym_str("url"), "path": path, "temp_path": temp_path,
+                                          "retry_policy": policy, "http_status_error_cls": HTTP_ERR,
+                                          "sleep_fn": Model("sleep", lambda I2, d: None), "logger": PObj("logger", {})})
+        if out.kind == "raise":
+            I.oblige("raises_only_download_errors", out.raised("HTTPStatusError") or out.raised("RequestError") or out.raised("OSError"),
+                     meta={"exc": out.exc.cls.name})
+        check_protocol(I, path, publishes=True, normal_exit=out.returned)
+
+    ex.methods[("logger", "debug")] = Model("logger.debug", lambda I, l, *a: None)
+    ex.methods[("logger", "error")] = Model("logger.error", lambda I, l, *a: None)
+    ex.methods[("logger", "warning")] = Model("logger.warning", lambda I, l, *a: None)
+    chk.prove("transport.download_with_retries", harness, ex, targets=[dl, st], replay=replay_crash)
